@@ -341,3 +341,164 @@ Proof.
   all: intros u; rewrite (locof_upd _ _ _ _ _ Hl), (pcof_upd _ _ _ _ _ Hl);
        destruct (Nat.eqb_spec u t) as [->|Hne]; cbn; [intros _; apply Nat.eqb_neq in Heqb; lia | apply HFS].
 Qed.
+
+(* ---------- the invariant of the reachable states ---------- *)
+Definition Inv (a0 : bool) (g : glob) (ls : list loc) : Prop := Inv1 g ls /\ Inv2 g ls /\ Inv3 a0 g ls.
+
+Lemma Inv_step a0 : forall g ls t c l g' l' es,
+  Inv a0 g ls -> nth_error ls t = Some l -> tstep t c g l = Some (g', l', es) -> Inv a0 g' (upd ls t l').
+Proof.
+  intros g ls t c l g' l' es [H1 [H2 H3]] Hl Hs. split; [|split].
+  - eapply Inv1_step; eauto.
+  - eapply Inv2_step; eauto.
+  - eapply Inv3_step; eauto.
+Qed.
+
+Lemma Inv_init a0 progs : Inv a0 (gl (init a0 progs)) (thr (init a0 progs)).
+Proof.
+  assert (P : forall u, pcof (map (fun p => Loc p Idle 0 0 0 0) progs) u = Idle).
+  { intros u. unfold pcof. rewrite nth_error_map. destruct (nth_error progs u); reflexivity. }
+  assert (Q : forall u, let l := locof (map (fun p => Loc p Idle 0 0 0 0) progs) u in
+                        sclr l = 0 /\ slp l = 0 /\ fslp l = 0 /\ myclr l = 0).
+  { intros u. unfold locof. rewrite nth_error_map. destruct (nth_error progs u); cbn; auto. }
+  unfold init; cbn [gl thr]. split; [|split]; constructor; cbn; intros; rewrite ?P in *; cbn in *;
+    try discriminate; try contradiction; try lia; auto.
+  - destruct (Q u) as [-> [-> [-> ->]]]. lia.
+  - split; intros; try discriminate; lia.
+Qed.
+
+Definition R (a0 : bool) (progs : list (list op)) (s : sysT) : Prop := reachable glob loc tstep (init a0 progs) s.
+
+Lemma R_inv a0 progs s : R a0 progs s -> Inv a0 (gl s) (thr s).
+Proof. intros H. eapply reachable_inv; [apply Inv_step|apply Inv_init|exact H]. Qed.
+
+Lemma ret_in v w (es : list ev) e : In (ret_ev v) [e; ret_ev w] -> ek e <> K_RET -> v = w.
+Proof.
+  intros [H|[H|[]]] Hk.
+  - subst e. cbn in Hk. congruence.
+  - unfold ret_ev, E in H. inversion H. reflexivity.
+Qed.
+
+(* ---------- C11, safety ---------- *)
+(* wait() / wait_for() returning true: either this very step read activated = false, or triggered is
+   true and the last triggered=true store follows the last clear, which is not older than the clear of
+   the activation the call observed *)
+Lemma wait_safe a0 progs s t c l g' l' es :
+  R a0 progs s -> nth_error (thr s) t = Some l ->
+  cur_op (at_ l) = Some Wait \/ cur_op (at_ l) = Some WaitFor ->
+  tstep t c (gl s) l = Some (g', l', es) -> In (ret_ev 1%Z) es ->
+  (activated (gl s) = false /\ exists tm, at_ l = W_load tm) \/
+  (triggered (gl s) = true /\ sclr l <= clear_stamp (gl s) /\
+   clear_stamp (gl s) < trig_stamp (gl s) /\ trig_stamp (gl s) < now (gl s)).
+Proof.
+  intros HR Hl Hop Hs Hret.
+  destruct (R_inv _ _ _ HR) as [H1 [H2 H3]].
+  pose proof (F_T _ _ H2 t) as HFT. rewrite (pcof_at _ _ _ Hl) in HFT.
+  pose proof (S_loc _ _ _ H3 t) as HL. rewrite (locof_at _ _ _ Hl) in HL.
+  pose proof (S_trig _ _ _ H3) as [HT _]. pose proof (S_now _ _ _ H3) as HN.
+  destruct l as [pr p s1 s2 s3 s4]. cbn [at_ sclr] in *.
+  step_cases Hs; cbn in Hop; try (destruct Hop; discriminate);
+    try (destruct k; destruct Hop; discriminate);
+    cbn in Hret; repeat (destruct Hret as [Hret|Hret]; try discriminate); try contradiction.
+  - left. split; eauto.
+  - right. assert (r = true) by (destruct r; [reflexivity|discriminate]). subst r.
+    specialize (HFT true eq_refl). specialize (HT HFT). cbn in HL. repeat split; try lia; auto.
+Qed.
+
+Lemma wait_observes t c g l g' l' es tm :
+  at_ l = W_load tm -> activated g = true -> tstep t c g l = Some (g', l', es) ->
+  at_ l' = W_lock tm /\ sclr l' = act_clear g.
+Proof.
+  intros Hp Ha Hs. destruct l as [pr p s1 s2 s3 s4]. cbn in Hp. subst p.
+  unfold tstep in Hs. cbn [at_] in Hs. rewrite Ha in Hs. inversion Hs. cbn. auto.
+Qed.
+
+(* the stamp bookkeeping behind [sclr]: the activation's clear precedes its activated=true store *)
+Lemma act_clear_facts a0 progs s : R a0 progs s ->
+  act_clear (gl s) <= clear_stamp (gl s) /\
+  (0 < act_stamp (gl s) -> 0 < act_clear (gl s) < act_stamp (gl s)) /\
+  (act_stamp (gl s) = 0 -> act_clear (gl s) = 0 /\ nact (gl s) = 0) /\
+  (triggered (gl s) = true <-> clear_stamp (gl s) < trig_stamp (gl s)).
+Proof.
+  intros HR. destruct (R_inv _ _ _ HR) as [_ [_ H3]].
+  destruct (S_actclear _ _ _ H3) as [A [B C]]. destruct (S_trig _ _ _ H3) as [D E].
+  repeat split; auto; try (apply C; auto); try (apply B; auto).
+  intros H. destruct (triggered (gl s)); [reflexivity|]. destruct (E eq_refl) as [[|] _]; lia.
+Qed.
+
+(* waitActivation / wait_forActivation: every return goes through V_unlock, with the flag as returned *)
+Lemma waitActivation_safe a0 progs s t c l g' l' es v :
+  R a0 progs s -> nth_error (thr s) t = Some l ->
+  cur_op (at_ l) = Some WaitActivation \/ cur_op (at_ l) = Some WaitForActivation ->
+  tstep t c (gl s) l = Some (g', l', es) -> In (ret_ev v) es ->
+  exists tm r, at_ l = V_unlock tm r /\ v = v_ret tm r /\ activated (gl s) = r /\
+               (r = false -> tm = true /\ (act_stamp (gl s) = 0 \/ act_stamp (gl s) < deact_stamp (gl s))) /\
+               (r = true -> 0 < act_stamp (gl s) \/ a0 = true).
+Proof.
+  intros HR Hl Hop Hs Hret.
+  destruct (R_inv _ _ _ HR) as [H1 [H2 H3]].
+  pose proof (F_A _ _ H2 t) as HFA. rewrite (pcof_at _ _ _ Hl) in HFA.
+  pose proof (F_tm _ _ H2 t) as HTM. rewrite (pcof_at _ _ _ Hl) in HTM.
+  pose proof (S_init _ _ _ H3) as HI0. pose proof (S_act _ _ _ H3) as [_ HA2].
+  destruct l as [pr p s1 s2 s3 s4]. cbn [at_] in *.
+  step_cases Hs; cbn in Hop; try (destruct Hop; discriminate);
+    try (destruct k; destruct Hop; discriminate);
+    try (destruct tm; destruct Hop; discriminate);
+    cbn in Hret; repeat (destruct Hret as [Hret|Hret]; try discriminate); try contradiction.
+  exists tm, r. specialize (HFA r eq_refl).
+  unfold ret_ev, E in Hret. inversion Hret. repeat split; auto.
+  - subst r. destruct tm; [reflexivity|discriminate].
+  - subst r. auto.
+  - intros ->. destruct (act_stamp (gl s)) eqn:E1; [right; apply HI0; auto|left; lia].
+Qed.
+
+(* the timed waits return false only with the flag false at the moment of the return; the untimed wait never does *)
+Lemma timed_false a0 progs s t c l g' l' es :
+  R a0 progs s -> nth_error (thr s) t = Some l ->
+  cur_op (at_ l) = Some Wait \/ cur_op (at_ l) = Some WaitFor ->
+  tstep t c (gl s) l = Some (g', l', es) -> In (ret_ev 0%Z) es ->
+  cur_op (at_ l) = Some WaitFor /\ triggered (gl s) = false /\
+  (trig_stamp (gl s) = 0 \/ trig_stamp (gl s) < clear_stamp (gl s)).
+Proof.
+  intros HR Hl Hop Hs Hret.
+  destruct (R_inv _ _ _ HR) as [H1 [H2 H3]].
+  pose proof (F_T _ _ H2 t) as HFT. rewrite (pcof_at _ _ _ Hl) in HFT.
+  pose proof (F_tm _ _ H2 t) as HTM. rewrite (pcof_at _ _ _ Hl) in HTM.
+  pose proof (S_trig _ _ _ H3) as [_ HT].
+  destruct l as [pr p s1 s2 s3 s4]. cbn [at_] in *.
+  step_cases Hs; cbn in Hop; try (destruct Hop; discriminate);
+    try (destruct k; destruct Hop; discriminate);
+    cbn in Hret; repeat (destruct Hret as [Hret|Hret]; try discriminate); try contradiction.
+  assert (r = false) by (destruct r; [discriminate|reflexivity]). subst r.
+  specialize (HFT false eq_refl). destruct (HT HFT) as [HT1 _].
+  destruct tm; [|discriminate]. cbn. auto.
+Qed.
+
+(* trigger(): returns false exactly when its load reads activated = false, and then nothing but the clock moved *)
+Lemma trigger_inactive t c g l g' l' es :
+  cur_op (at_ l) = Some Trigger -> tstep t c g l = Some (g', l', es) ->
+  (In (ret_ev 0%Z) es <-> at_ l = T_load Top /\ activated g = false) /\
+  (In (ret_ev 0%Z) es -> g' = tick g /\ at_ l' = Idle /\ es = [ESC K_LOAD O_ACT 0%Z; ret_ev 0%Z]) /\
+  (In (ret_ev 1%Z) es -> at_ l = T_unlock Top).
+Proof.
+  intros Hop Hs. destruct l as [pr p s1 s2 s3 s4]. cbn [at_] in *.
+  step_cases Hs; cbn in Hop; try discriminate; try (destruct tm; discriminate).
+  all: repeat split; try (intros [? ?]; try discriminate; try congruence);
+       try (intros Hret; cbn in Hret; repeat (destruct Hret as [Hret|Hret]; try discriminate); try contradiction; auto);
+       cbn; auto.
+Qed.
+
+(* reset(): the variable is inactive when reset returns (and the returning step does not change that) *)
+Lemma reset_inactive a0 progs s t c l g' l' es v :
+  R a0 progs s -> nth_error (thr s) t = Some l -> cur_op (at_ l) = Some Reset ->
+  tstep t c (gl s) l = Some (g', l', es) -> In (ret_ev v) es ->
+  at_ l = R_unlock /\ activated (gl s) = false /\ activated g' = false.
+Proof.
+  intros HR Hl Hop Hs Hret.
+  destruct (R_inv _ _ _ HR) as [H1 [H2 H3]].
+  pose proof (F_A _ _ H2 t) as HFA. rewrite (pcof_at _ _ _ Hl) in HFA.
+  destruct l as [pr p s1 s2 s3 s4]. cbn [at_] in *.
+  step_cases Hs; cbn in Hop; try discriminate; try (destruct tm; discriminate);
+    cbn in Hret; repeat (destruct Hret as [Hret|Hret]; try discriminate); try contradiction.
+  specialize (HFA false eq_refl). cbn. auto.
+Qed.
